@@ -25,6 +25,10 @@ type c05Run struct {
 	FailOn   *string      `json:"fail_on"`
 	MinSev   *string      `json:"min_severity"`
 	ShowDups bool         `json:"show_duplicates"`
+	// reporting flags that must not influence the exit status
+	TeamCity     bool `json:"teamcity,omitempty"`
+	CheckStyle   bool `json:"checkstyle,omitempty"`
+	RequireOwner bool `json:"require_owner,omitempty"`
 	Sevs     []string     `json:"severities"`
 	JSONOK   bool         `json:"json_present"`
 	// control-flow strata: an injected infrastructure fault (the stage of actionLint/actionCI that must return an error),
@@ -56,11 +60,16 @@ func c05GenScenario(r *rand.Rand) c05Scenario {
 			expr = "sum(" // promql/syntax
 		case 1:
 			expr = "up{job=\"a\"} == 0"
+		case 2:
+			expr = "up" // alerting rule without a comparison: alerts/comparison (Warning, fixed in the check)
 		}
 		if alert {
 			fmt.Fprintf(&rules, "  - alert: %s\n    expr: %s\n", name, expr)
-			if r.Intn(5) == 0 {
+			switch r.Intn(6) {
+			case 0:
 				rules.WriteString("    for: abc\n")
+			case 1:
+				rules.WriteString("    for: 0s\n") // alerts/for (Information, fixed in the check)
 			}
 		} else {
 			fmt.Fprintf(&rules, "  - record: %s\n    expr: %s\n", name, expr)
@@ -87,6 +96,12 @@ func c05GenScenario(r *rand.Rand) c05Scenario {
 		cfg.WriteString("parser { relaxed = [] }\n")
 	}
 	return c05Scenario{Rules: rules.String(), Config: cfg.String()}
+}
+
+// class predicate of known finding C05-require-owner-broken-rule-crash (input side): the rule file parses as a whole
+// (no file-level YAML error) and holds a rule with a rule-level parse error; the generated files never carry owners.
+func c05UnownedBrokenRule(sc c05Scenario) bool {
+	return strings.Contains(sc.Rules, "bogus_key") && !strings.Contains(sc.Rules, "{{ broken yaml")
 }
 
 func runC05(args []string) int {
@@ -122,6 +137,17 @@ func runC05(args []string) int {
 			grid = append(grid, c05Scenario{Rules: two, Config: fmt.Sprintf("rule {\n  match {\n    name = \"r0\"\n  }\n  report {\n    comment = \"hi\"\n    severity = %q\n  }\n}\nrule {\n  match {\n    name = \"r1\"\n  }\n  report {\n    comment = \"lo\"\n    severity = %q\n  }\n}\n", sv, c05Sevs[k-1])})
 		}
 	}
+	// problems whose severity is fixed in the code of a built-in check (not read from the configuration): one scenario
+	// per severity, so that the meaning of a --fail-on WORD is tested against severities that never went through ParseSeverity
+	nocfg := "parser { relaxed = [] }\n"
+	hdr := "groups:\n- name: g\n  rules:\n"
+	grid = append(grid,
+		c05Scenario{Rules: hdr + "  - alert: A\n    expr: up == 0\n    for: 0s\n", Config: nocfg},                                                            // alerts/for: Information
+		c05Scenario{Rules: hdr + "  - alert: A\n    expr: up\n", Config: nocfg},                                                                                // alerts/comparison: Warning
+		c05Scenario{Rules: hdr + "  - alert: A\n    expr: sum(up) > 0\n    annotations:\n      summary: \"{{ $labels.job }}\"\n", Config: nocfg},          // alerts/template: Bug
+		c05Scenario{Rules: hdr + "  - alert: A\n    expr: up == 0\n    bogus_key: 1\n", Config: nocfg},                                                       // parse error: Fatal
+		c05Scenario{Rules: hdr + "  - alert: A\n    expr: up\n    for: 0s\n  - alert: B\n    expr: sum(up) > 0\n    annotations:\n      summary: \"{{ $labels.job }}\"\n", Config: nocfg},
+	)
 	scen = append(grid, scen...)
 
 	var runs []c05Run
@@ -151,7 +177,7 @@ func runC05(args []string) int {
 		writeFile(filepath.Join(cd, ".pint.hcl"), scen[si].Config)
 		git(cd, "add", ".")
 		git(cd, "commit", "-q", "-m", "add rules")
-		if si%3 == 0 {
+		if si%3 == 0 || c05UnownedBrokenRule(scen[si]) {
 			// a second repository whose feature branch has no change at all
 			c2 := filepath.Join(dir, "ci2")
 			writeFile(filepath.Join(c2, "rules", "0.yml"), scen[si].Rules)
@@ -193,6 +219,9 @@ func runC05(args []string) int {
 			}
 			bogus := "critical"
 			runs = append(runs, c05Run{Scenario: si, CI: true, FailOn: &bogus, Branch: "feature", Base: "main", NoChange: true})
+			// --require-owner on a branch that changes nothing (owners are verified for every rule of the repository)
+			runs = append(runs, c05Run{Scenario: si, CI: true, FailOn: &fat, Branch: "feature", Base: "main", NoChange: true, RequireOwner: true})
+			runs = append(runs, c05Run{Scenario: si, FailOn: &fat, RequireOwner: true})
 		}
 		for _, fo := range failOns {
 			for k, ms := range minSevs {
@@ -207,6 +236,11 @@ func runC05(args []string) int {
 	}
 	for i := range runs {
 		runs[i].ID = i
+		if runs[i].Fault == "" && !runs[i].RequireOwner {
+			runs[i].TeamCity = r.Intn(5) == 0
+			runs[i].CheckStyle = r.Intn(5) == 0
+			runs[i].RequireOwner = r.Intn(8) == 0
+		}
 	}
 	parallel(len(runs), 16, func(i int) {
 		ru := &runs[i]
@@ -235,6 +269,16 @@ func runC05(args []string) int {
 		if ru.ShowDups {
 			a = append(a, "--show-duplicates")
 		}
+		var tail []string
+		if ru.TeamCity {
+			tail = append(tail, "--teamcity")
+		}
+		if ru.CheckStyle {
+			tail = append(tail, "--checkstyle", filepath.Join(dir, fmt.Sprintf("cs_%d.xml", i)))
+		}
+		if ru.RequireOwner {
+			tail = append(tail, "--require-owner")
+		}
 		wd := filepath.Join(dir, "lint")
 		if ru.CI {
 			wd = filepath.Join(dir, "ci")
@@ -257,6 +301,7 @@ func runC05(args []string) int {
 		if ru.FailOn != nil {
 			a = append(a, "--fail-on", *ru.FailOn)
 		}
+		a = append(a, tail...)
 		if !ru.CI {
 			switch ru.Fault {
 			case "no-paths":
@@ -297,9 +342,10 @@ func runC05(args []string) int {
 	sevRank := map[string]int{"Information": 0, "Warning": 1, "Bug": 2, "Fatal": 3}
 	flagRank := map[string]int{"info": 0, "warning": 1, "bug": 2, "fatal": 3}
 	for _, ru := range runs {
-		cw.add(fmt.Sprintf("{| c_id := %s; c_ci := %s; c_fail_on := %s; c_min_sev := %s; c_sevs := %s; c_json_present := %s; c_exit_nonzero := %s; c_fault := %s; c_branch := %s; c_base := %s; c_json_exists := %s |}",
+		cw.add(fmt.Sprintf("{| c_id := %s; c_ci := %s; c_fail_on := %s; c_min_sev := %s; c_sevs := %s; c_json_present := %s; c_exit_nonzero := %s; c_fault := %s; c_branch := %s; c_base := %s; c_json_exists := %s; c_exit_code := %s; c_require_owner := %s; c_unowned_broken_rule := %s |}",
 			coqN(ru.ID), coqBool(ru.CI), optS(ru.FailOn), optS(ru.MinSev), coqStrList(ru.Sevs), coqBool(ru.JSONOK), coqBool(ru.Exit != 0),
-			coqStr(ru.Fault), coqStr(ru.Branch), coqStr(ru.Base), coqBool(ru.JSONExists)))
+			coqStr(ru.Fault), coqStr(ru.Branch), coqStr(ru.Base), coqBool(ru.JSONExists), coqZ(int64(ru.Exit)), coqBool(ru.RequireOwner),
+			coqBool(c05UnownedBrokenRule(scen[ru.Scenario]))))
 		distinct := map[string]bool{}
 		for _, s := range ru.Sevs {
 			distinct[s] = true
@@ -311,7 +357,7 @@ func runC05(args []string) int {
 		if ru.MinSev != nil {
 			ms = *ru.MinSev
 		}
-		key := fmt.Sprintf("%v|%s|%s|%v|%v|%s|%s|%v", ru.Sevs, fo, ms, ru.CI, ru.ShowDups, ru.Fault, ru.Base, ru.NoChange)
+		key := fmt.Sprintf("%v|%s|%s|%v|%v|%s|%s|%v|%v%v%v", ru.Sevs, fo, ms, ru.CI, ru.ShowDups, ru.Fault, ru.Base, ru.NoChange, ru.TeamCity, ru.CheckStyle, ru.RequireOwner)
 		rep.count(key, len(distinct) >= 2)
 		rep.hist(fmt.Sprintf("failon=%s", fo))
 		rep.hist(fmt.Sprintf("distinct_sevs=%d", len(distinct)))
@@ -320,6 +366,15 @@ func runC05(args []string) int {
 		} else {
 			rep.hist("cmd=lint")
 		}
+		if ru.TeamCity {
+			rep.hist("flag=teamcity")
+		}
+		if ru.CheckStyle {
+			rep.hist("flag=checkstyle")
+		}
+		if ru.RequireOwner {
+			rep.hist("flag=require-owner")
+		}
 		if ru.Exit != 0 {
 			rep.hist("exit=nonzero")
 		} else {
@@ -327,6 +382,12 @@ func runC05(args []string) int {
 		}
 		rep.Cases[fmt.Sprint(ru.ID)] = map[string]any{"run": ru, "scenario": scen[ru.Scenario]}
 		// implementation-level oracle: the property as written
+		if ru.Exit == 2 && ru.RequireOwner && c05UnownedBrokenRule(scen[ru.Scenario]) && strings.Contains(ru.Stderr, "panic") {
+			// known finding: verifyOwners dereferences the (nil) last key of a rule that failed to parse
+			rep.hist("known=C05-require-owner-broken-rule-crash")
+			rep.failKnown(fmt.Sprint(ru.ID), "pint panics in verifyOwners: --require-owner with a rule that failed to parse", map[string]any{"run": ru, "scenario": scen[ru.Scenario]}, "C05-require-owner-broken-rule-crash")
+			continue
+		}
 		if ru.Exit < 0 || ru.Exit > 1 {
 			rep.fail(fmt.Sprint(ru.ID), fmt.Sprintf("pint crashed or timed out (exit %d): %s", ru.Exit, ru.Stderr), map[string]any{"run": ru, "scenario": scen[ru.Scenario]})
 			continue
